@@ -96,7 +96,10 @@ def _in_domain(e, tags):
         return isinstance(e[1], str) and not set(e[1]) - set("01")
     if t == "i":
         return isinstance(e[1], int) and not isinstance(e[1], bool) and e[1] >= 0
-    if t in ("x", "xa", "s"):
+    if t == "s":
+        # the line protocol is split at blanks, attributes at '='
+        return isinstance(e[1], str) and e[1] != "" and not any(ch.isspace() or ch == "=" for ch in e[1])
+    if t in ("x", "xa"):
         return isinstance(e[1], str)
     if t == "l":
         return all(_in_domain(x, tags) for x in e[1])
